@@ -60,7 +60,7 @@ def print_tm(g, opts=None, pkgroot="vgen"):
         for lhs in order:
             alts = []
             for idx, rhs in by[lhs]:
-                txt = " ".join(rhs) if rhs else "%empty"
+                txt = " ".join(("{ /* mid-rule action */ }" if x.startswith("{") else x) for x in rhs) if rhs else "%empty"
                 if g.get("rule_prec", {}).get(idx):
                     txt += " %prec " + g["rule_prec"][idx]
                 if idx in arrows:
@@ -100,8 +100,14 @@ def nonterminals(g):
     return order
 
 
+def is_meta(sym):
+    """State markers (.name) and mid-rule actions ({...}) occupy no input: the oracle ignores them."""
+    return sym.startswith(".") or sym.startswith("{")
+
+
 def check_grammar(g):
     """Sanity of a corpus grammar: every nonterminal productive and reachable from some input."""
+    g = dict(g, rules=[(l, [x for x in r if not is_meta(x)]) for l, r in g["rules"]])
     nts = nonterminals(g)
     prod = set()
     changed = True
@@ -128,6 +134,7 @@ def data_file(g, meta, pkgname):
     lines.append("var verifTerms = []int32{%s}" % ", ".join(map(str, terms)))
     rl = []
     for lhs, rhs in g["rules"]:
+        rhs = [x for x in rhs if not is_meta(x)]
         syms = [1000 + nts.index(lhs)] + [(1000 + nts.index(s)) if s in nts else symid[s] for s in rhs]
         rl.append("{" + ", ".join(map(str, syms)) + "}")
     lines.append("var verifRules = [][]int{%s}" % ", ".join(rl))
